@@ -428,6 +428,7 @@ type FuncSpec struct {
 	Pure     bool   // assigns nothing, deterministic in args+heap
 	NoPanic  bool   // generate safety obligations
 	Preserves []*PreserveSpec
+	CheckAts  []*CheckAt
 	PreOnly  bool   // only the preconditions are used at call sites; the body is still opened/havocked as if there were no contract
 	Witness  []*Clause // named entry-state terms whose counterexample values the replay generators need
 	NoInline bool
@@ -455,6 +456,16 @@ type PreserveSpec struct {
 	Callees []string
 	Except  []string // functions whose own writes are the sanctioned way to change the component
 	Src     string
+}
+
+// CheckAt: "check-at [props] label: call "callee[#k]" : cond" or "check-at label: send : cond" — cond
+// must hold in the state right before every such instruction of this function.
+type CheckAt struct {
+	Label  string
+	Props  []string
+	Callee string // "" for channel sends
+	Send   bool
+	Cond   *Clause
 }
 
 type Gate struct {
@@ -846,6 +857,54 @@ func (db *SpecDB) parseSpecText(text, file, pkgPath string) error {
 				return fail("preserves: needs components and callees")
 			}
 			cur.Preserves = append(cur.Preserves, ps)
+		case "check-at":
+			if cur == nil {
+				return fail("check-at outside func")
+			}
+			r := strings.TrimSpace(rest)
+			var props []string
+			if strings.HasPrefix(r, "[") {
+				if j := strings.Index(r, "]"); j > 0 {
+					for _, p := range strings.Split(r[1:j], ",") {
+						props = append(props, strings.TrimSpace(p))
+					}
+					r = strings.TrimSpace(r[j+1:])
+				}
+			}
+			i := strings.Index(r, ":")
+			if i < 0 {
+				return fail("check-at label: call \"callee\" : cond")
+			}
+			ca := &CheckAt{Label: strings.TrimSpace(r[:i]), Props: props}
+			tail := strings.TrimSpace(r[i+1:])
+			switch {
+			case strings.HasPrefix(tail, "send"):
+				ca.Send = true
+				tail = strings.TrimSpace(strings.TrimPrefix(tail, "send"))
+			case strings.HasPrefix(tail, "call "):
+				t2 := strings.TrimSpace(strings.TrimPrefix(tail, "call "))
+				if !strings.HasPrefix(t2, "\"") {
+					return fail("check-at: call \"callee\"")
+				}
+				k := strings.Index(t2[1:], "\"")
+				if k < 0 {
+					return fail("check-at: unterminated callee")
+				}
+				ca.Callee = t2[1 : k+1]
+				tail = strings.TrimSpace(t2[k+2:])
+			default:
+				return fail("check-at: expected send or call \"callee\"")
+			}
+			if !strings.HasPrefix(tail, ":") {
+				return fail("check-at: missing ': cond'")
+			}
+			cl, err := parseClause(strings.TrimSpace(tail[1:]), file, l.line)
+			if err != nil {
+				return err
+			}
+			cl.Props = props
+			ca.Cond = cl
+			cur.CheckAts = append(cur.CheckAts, ca)
 		case "pre-only":
 			if cur == nil {
 				return fail("pre-only outside func")
